@@ -41,6 +41,8 @@ FL = {}
 for _i, _c in enumerate(CREDS):
     FL[(_i, False)] = FlagParser.initialize(['--threadless', '--basic-auth', _c])
     FL[(_i, True)] = FlagParser.initialize(['--threadless', '--basic-auth', _c], plugins=[RecordingPlugin])
+# --basic-auth together with an operator-chosen --disable-headers list
+FL_DH = FlagParser.initialize(['--threadless', '--basic-auth', CREDS[0], '--disable-headers', 'x-drop'], plugins=[RecordingPlugin])
 AUTH_FAILED = PROXY_AUTH_FAILED_RESPONSE_PKT.tobytes()
 WS = (32, 9, 10, 11, 12, 13)
 
@@ -82,7 +84,7 @@ def auth(x0: int, x1: int, x2: int, k0: int, k1: int) -> bool:
     rec = CFG['rec']
     method = CFG['method']
     shape = CFG['shape']
-    flags = FL[(ci, rec)]
+    flags = FL_DH if CFG.get('dh') else FL[(ci, rec)]
     token = base64.b64encode(CREDS[ci].encode())
     good = b'Basic ' + token
     xs = [x0, x1, x2]
@@ -148,6 +150,19 @@ def auth(x0: int, x1: int, x2: int, k0: int, k1: int) -> bool:
             return fail('outbound connection attempted for an unauthenticated request', connects=repr(env.connects), value=repr(value))
         if HOOKS:
             return fail('a later plugin saw a request of an unauthenticated connection', hooks=repr(HOOKS))
+        # more bytes arrive while the 407 is still queued (slow peer: not writable yet); what the proxy asks the selector for decides
+        # whether they are read at all
+        cs.inq.append(b'GET http://h/z HTTP/1.1\r\n' + name + b': ' + good + b'\r\n\r\n')
+        try:
+            ev = run(h.get_events())
+            r = [cs.fd] if (ev.get(cs.fd, 0) & 1) else []
+            run(h.handle_events(r, []))
+        except Exception as e:
+            return fail('exception on bytes arriving after the 407', exc=repr(e))
+        if HOOKS or env.connects:
+            return fail('bytes arriving after the 407 reached a later plugin or an upstream', hooks=repr(HOOKS), connects=repr(env.connects))
+        if cat(h.work.buffer) != AUTH_FAILED:
+            return fail('pending 407 altered by bytes arriving after it', out=repr(cat(h.work.buffer)[:80]))
         return ok()
     if closing:
         return fail('correct credentials rejected', out=repr(out[:60]), value=repr(value))
@@ -219,6 +234,8 @@ def obligations(tier):
         add('auth.truncate.keep%d' % keep, {'shape': 'truncate', 'keep': keep, 'n': 1})
     for sch in ('Bearer', 'Digest', 'basic', 'BASIC', 'Basi', 'Basicc'):
         add('auth.scheme.%s' % sch, {'shape': 'scheme', 'scheme': sch})
+    add('auth.replace.0_1.disable_headers', {'shape': 'replace', 'pos': [0, 1], 'second': True, 'dh': True})
+    add('auth.append.1.disable_headers', {'shape': 'append', 'n': 1, 'second': True, 'dh': True})
     for ci in (1, 2):
         add('auth.cred%d.replace' % ci, {'shape': 'replace', 'pos': [0, 7], 'cred': ci})
         add('auth.cred%d.append' % ci, {'shape': 'append', 'n': 1, 'cred': ci})
@@ -232,7 +249,8 @@ META = {
                  'with: 2 arbitrary bytes replacing 9 position pairs (1 byte at every position for CONNECT), 1-2 arbitrary bytes appended / '
                  'prepended / inserted at 3 places, truncations + 1 arbitrary byte, 6 other scheme tokens with an arbitrary separator byte; '
                  'two symbolic case bits in the header name; with a recording user plugin configured after auth; authorised connections also '
-                 'send a second keep-alive request',
+                 'send a second keep-alive request (also with an operator-chosen --disable-headers list); rejected connections receive more '
+                 'bytes while the 407 is still queued',
         'thorough': 'all 45 position pairs',
     },
     'outside': 'duplicated Proxy-Authorization lines (the parser keeps the last one); more than 3 edited bytes at once; segmentation of the '
